@@ -19,6 +19,7 @@ func init() {
 
 func runC08(w *World, r *Report) {
 	defer catalogStatePairs(w, r, "C08-R9")
+	defer ruleKeyComponentsVerbatim(w, r, "C08-R10")
 	r1 := r.Rule("C08-R1", "decision table (finite-domain abstract evaluation)", "getObjState(m,c,d,cok,dok) equals the oracle: none known->Unknown; only drop->Dropped iff m<=d else Unknown; only create->Created iff c<=m else Dropped; both: c>=d -> (Created iff m>=c else Dropped); c<d -> (Dropped iff m<=d else Unknown)", 52)
 	r1.Exhaustive = true
 	r2 := r.Rule("C08-R2", "cascade decision table", "WaitObjReady: not milvus->(false,nil); levels database, collection, partition in that order, each asked only when named (partition only with a collection); Unknown->(false,err), Dropped->(true,nil), Created->next level; end->(false,nil)", 400)
